@@ -86,6 +86,7 @@ type fastaLayout struct {
 	blanks  int   // probability (percent) of inserting blank lines after a line
 	crlf    bool
 	noFinal bool
+	longRun bool // some runs of blank lines are longer than the I/O buffers (2049 … 70 000 line ends)
 }
 
 var layoutWidths = []int{1, 2, 3, 59, 60, 61, 79, 80, 81, 4095, 4096, 4097, 0, 0, 0}
@@ -101,11 +102,12 @@ func genLayout(r *rand.Rand) fastaLayout {
 	}
 	l.crlf = r.IntN(2) == 0
 	l.noFinal = r.IntN(2) == 0
+	l.longRun = l.blanks > 0 && r.IntN(4) == 0
 	return l
 }
 
 func (l fastaLayout) String() string {
-	return fmt.Sprintf("widths=%v blanks=%d%% crlf=%v noFinalNewline=%v", l.widths, l.blanks, l.crlf, l.noFinal)
+	return fmt.Sprintf("widths=%v blanks=%d%% crlf=%v noFinalNewline=%v longBlankRuns=%v", l.widths, l.blanks, l.crlf, l.noFinal, l.longRun)
 }
 
 func (l fastaLayout) render(r *rand.Rand, recs []*fasta.Fasta) []byte {
@@ -139,7 +141,11 @@ func (l fastaLayout) render(r *rand.Rand, recs []*fasta.Fasta) []byte {
 		// Blank lines between lines (never before the first line, never after
 		// the last when the final newline is omitted).
 		if l.blanks > 0 && !last && r.IntN(100) < l.blanks {
-			for j := 1 + r.IntN(3); j > 0; j-- {
+			j := 1 + r.IntN(3)
+			if l.longRun && buf.Len() < 1<<20 && r.IntN(3) == 0 {
+				j = pick(r, []int{100, 2047, 2048, 2049, 4095, 4096, 4097, 8200, 70000})
+			}
+			for ; j > 0; j-- {
 				buf.WriteString(eol)
 			}
 		}
@@ -291,6 +297,7 @@ func init() {
 			{Name: "histories", Run: codecHistories("fasta")},
 			{Name: "readerzoo", TShards: 4, Run: zooUnit("fasta")},
 			{Name: "exactsizes", QShards: 2, TShards: 4, Run: exactSizeUnit("fasta")},
+			{Name: "tiny", TShards: 4, Run: tinyUnit("fasta")},
 			{Name: "gigantic", Run: c01Gigantic},
 			{Name: "namesbyseq", QShards: 2, TShards: 4, Run: c01NamesBySeq},
 			firstCallUnit(firstCodec("fasta")),
